@@ -179,9 +179,10 @@ func Solve(query string, dir string, name string, timeoutS int, all bool) Result
 	var wg sync.WaitGroup
 	use := solvers
 	if !all {
-		// quick tier: cvc5 and z3 5.1 under three more seeds (slow queries are the seed-sensitive ones);
-		// z3 4.8.12 joins in the thorough tier, where all answers are cross-checked
-		use = solvers[1:5]
+		// quick tier: cvc5, z3 5.1 under three more seeds (slow queries are the seed-sensitive ones) and z3 4.8.12
+		// (which decides some obligations in 2 s that z3 5.1 needs 20 s and a lucky seed for); the first definite answer
+		// wins.  In the thorough tier every solver runs to the end and the answers are cross-checked.
+		use = solvers[1:6]
 	}
 	for _, sp := range use {
 		wg.Add(1)
